@@ -128,6 +128,13 @@ func (c *cursorManager) SetCursor(ctx context.Context, streamName, cursorID stri
 	c.mu.Lock()
 	defer c.mu.Unlock()
 
+	// The publish below hands the message to NATS before it looks at the
+	// context, so don't start a write for a request that is already dead,
+	// e.g. because it expired while waiting for the lock.
+	if err := ctx.Err(); err != nil {
+		return status.FromContextError(err)
+	}
+
 	_, err = c.api.Publish(ctx, &client.PublishRequest{
 		Key:       cursorKey,
 		Value:     serializedCursor,
@@ -138,6 +145,11 @@ func (c *cursorManager) SetCursor(ctx context.Context, streamName, cursorID stri
 		ExpectedOffset: -1,
 	})
 	if err != nil {
+		// A failed publish, e.g. the context expired before the ack arrived,
+		// does not mean the cursor was not stored. Drop the cached offset so
+		// the next read goes to the partition rather than serving an offset
+		// the log may no longer agree with.
+		c.cache.Remove(string(cursorKey))
 		return status.New(codes.Internal, err.Error())
 	}
 
